@@ -487,6 +487,18 @@ func (a *Adapter) drain(ctx sdk.Context) (out string) {
 	}
 	ut, err := sk.UnbondingTime(c)
 	must(err)
+	// what every delegator has in unbonding entries must arrive in its account when the entries mature
+	due, before := map[string]sdkmath.Int{}, map[string]sdkmath.Int{}
+	for _, d := range a.C.Delegator {
+		due[d], before[d] = sdkmath.ZeroInt(), a.bal(c, d)
+		for _, v := range a.C.Validator {
+			if u, err := sk.GetUnbondingDelegation(c, a.acc(d), a.val[v]); err == nil {
+				for _, e := range u.Entries {
+					due[d] = due[d].Add(e.Balance)
+				}
+			}
+		}
+	}
 	later := c.WithBlockHeight(c.BlockHeight() + 1).WithBlockTime(c.BlockTime().Add(ut + time.Hour))
 	if _, err = sk.BlockValidatorUpdates(later); err != nil {
 		return "endblock: " + err.Error()
@@ -496,6 +508,9 @@ func (a *Adapter) drain(ctx sdk.Context) (out string) {
 			if _, err := sk.GetUnbondingDelegation(later, a.acc(d), a.val[v]); err == nil {
 				return "immature " + d + " " + v
 			}
+		}
+		if got := a.bal(later, d).Sub(before[d]); !got.Equal(due[d]) {
+			return fmt.Sprintf("matured %s: got %s due %s", d, got, due[d])
 		}
 	}
 	if r := a.invariants(later); r != "ok" {
